@@ -549,16 +549,19 @@ static bool read_lead(zckCtx *zck) {
         return false;
     }
 
-    /* Read header digest */
+    /* Read header digest.  The buffer already holds the bytes read ahead, which
+     * header_size accounts for below, so it may only grow here: a lead that is
+     * shorter than the read-ahead must not cut them off */
     zck_log(ZCK_LOG_DEBUG, "Reading header digest");
-    header = zrealloc(header, length + zck->hash_type.digest_size);
-    if (!header) {
-        zck_log(ZCK_LOG_ERROR, "OOM in %s", __func__);
-        return false;
-    }
     size_t to_read = 0;
-    if(lead < length + zck->hash_type.digest_size)
+    if(lead < length + zck->hash_type.digest_size) {
+        header = zrealloc(header, length + zck->hash_type.digest_size);
+        if (!header) {
+            zck_log(ZCK_LOG_ERROR, "OOM in %s", __func__);
+            return false;
+        }
         to_read = length + zck->hash_type.digest_size - lead;
+    }
     ssize_t rb = read_data(zck, header + lead, to_read);
     if(rb < 0 || (size_t)rb < to_read) {
         free(header);
